@@ -28,6 +28,11 @@ type Phase struct {
 	DetSample  int      // indices re-executed twice for the determinism self-test
 	DetEnvB    []string // environment of the second execution (e.g. GOMAXPROCS=16)
 	Samples    int
+	// HistTail > 0: the last HistTail runs of every worker (those with the
+	// longest process history) are re-executed alone in fresh processes and
+	// must observe the same results (Outcome.Observed); a difference that is
+	// stable across two fresh executions is a HistoryClass violation.
+	HistTail int
 	// PostWorker lets a phase interpret a finished worker process (e.g. race
 	// detector logs). It may add violations.
 	PostWorker func(w int, stderr string, add func(Violation, uint64))
@@ -100,6 +105,7 @@ type phaseResult struct {
 	wall       float64
 	timedOut   bool
 	detChecked int
+	histChecked int
 }
 
 func repoInfo() map[string]string {
@@ -202,6 +208,7 @@ func (c *Check) runPhase(p Phase) *phaseResult {
 	}
 	var mu sync.Mutex
 	var wg sync.WaitGroup
+	var tails []tailRef
 	for w := 0; w < workers; w++ {
 		wg.Add(1)
 		go func(w int) {
@@ -217,6 +224,9 @@ func (c *Check) runPhase(p Phase) *phaseResult {
 			args := []string{"worker", "--engine", p.Engine, "--base", fmt.Sprint(c.Seed),
 				"--start", fmt.Sprint(w), "--stride", fmt.Sprint(workers), "--count", fmt.Sprint(count),
 				"--deadline", fmt.Sprint(deadline), "--samples", fmt.Sprint(samples)}
+			if p.HistTail > 0 {
+				args = append(args, "--tail", fmt.Sprint(p.HistTail))
+			}
 			gotSummary := false
 			env := append([]string{}, p.Env...)
 			env = append(env, "VERIF_WORKER="+fmt.Sprint(w))
@@ -235,6 +245,9 @@ func (c *Check) runPhase(p Phase) *phaseResult {
 					var s Summary
 					json.Unmarshal(line, &s)
 					gotSummary = true
+					for _, te := range s.Tail {
+						tails = append(tails, tailRef{te, uint64(w), uint64(workers)})
+					}
 					res.sum.Runs += s.Runs
 					res.sum.Evals += s.Evals
 					res.sum.Steps += s.Steps
@@ -302,6 +315,9 @@ func (c *Check) runPhase(p Phase) *phaseResult {
 	}
 	wg.Wait()
 	res.wall = time.Since(start).Seconds()
+	if p.HistTail > 0 && len(res.found) == 0 {
+		c.historyTest(p, tails, res)
+	}
 	// determinism self-test: same indices, two fresh processes, different env
 	if p.DetSample > 0 && res.sum.Runs > 0 {
 		n := uint64(p.DetSample)
@@ -366,6 +382,130 @@ func (c *Check) runPhase(p Phase) *phaseResult {
 		}
 	}
 	return res
+}
+
+type tailRef struct {
+	TailEntry
+	start, stride uint64
+}
+
+// historyTest: every tail run is executed alone in a fresh process; its
+// observed results must equal what the batch worker observed after hundreds of
+// earlier runs in the same process.
+func (c *Check) historyTest(p Phase, tails []tailRef, res *phaseResult) {
+	sort.Slice(tails, func(i, j int) bool { return tails[i].Index < tails[j].Index })
+	type verdict struct {
+		t     tailRef
+		alone *Outcome
+		err   error
+	}
+	out := make([]verdict, len(tails))
+	sem := make(chan struct{}, 16)
+	var wg sync.WaitGroup
+	for i := range tails {
+		wg.Add(1)
+		sem <- struct{}{}
+		go func(i int) {
+			defer wg.Done()
+			defer func() { <-sem }()
+			o, err := ObserveIn(p.Bin, p.Env, p.Engine, c.Seed, tails[i].Index, nil, false)
+			out[i] = verdict{tails[i], o, err}
+		}(i)
+	}
+	wg.Wait()
+	reported := 0
+	for _, v := range out {
+		if v.err != nil {
+			res.harness = append(res.harness, "history test: "+v.err.Error())
+			continue
+		}
+		if v.alone.TimingDependent {
+			continue
+		}
+		res.histChecked++
+		if v.alone.Observed == v.t.Observed || reported >= 2 {
+			continue
+		}
+		// stable? a second fresh execution must agree with the first
+		again, err := ObserveIn(p.Bin, p.Env, p.Engine, c.Seed, v.t.Index, nil, false)
+		if err != nil || again.Observed != v.alone.Observed {
+			res.harness = append(res.harness, fmt.Sprintf("NONDETERMINISM in engine %s at index %d: two fresh processes observe different results", p.Engine, v.t.Index))
+			continue
+		}
+		var prior []uint64
+		for k := v.t.start; k < v.t.Index; k += v.t.stride {
+			prior = append(prior, k)
+		}
+		differs := func(pr []uint64) (bool, *Outcome) {
+			o, err := ObserveIn(p.Bin, p.Env, p.Engine, c.Seed, v.t.Index, pr, true)
+			return err == nil && o.Observed != v.alone.Observed, o
+		}
+		ok, _ := differs(prior)
+		if !ok {
+			res.harness = append(res.harness, fmt.Sprintf("history test: index %d observed %016x in its batch worker and %016x alone, but replaying the worker's %d earlier runs does not reproduce the difference", v.t.Index, v.t.Observed, v.alone.Observed, len(prior)))
+			continue
+		}
+		// minimise the prior list (fresh process per attempt, bounded)
+		cur := prior
+		deadline := time.Now().Add(c.ShrinkBudget * 3)
+		for chunk := (len(cur) + 1) / 2; chunk >= 1 && time.Now().Before(deadline); {
+			removed := false
+			for i := 0; i+chunk <= len(cur) && time.Now().Before(deadline); {
+				cand := append(append([]uint64{}, cur[:i]...), cur[i+chunk:]...)
+				if d, _ := differs(cand); d {
+					cur = cand
+					removed = true
+				} else {
+					i += chunk
+				}
+			}
+			if chunk == 1 && !removed {
+				break
+			}
+			if !removed {
+				chunk /= 2
+			} else if chunk > len(cur) {
+				chunk = len(cur)
+			}
+			if len(cur) == 0 {
+				break
+			}
+		}
+		_, after := differs(cur)
+		aloneFull, _ := ObserveIn(p.Bin, p.Env, p.Engine, c.Seed, v.t.Index, nil, true)
+		detail := fmt.Sprintf("run %d returns other results after %d earlier run(s) of the same process (indices %v) than in a fresh process: state kept outside the documents and compiled expressions survives between unrelated calls", v.t.Index, len(cur), headU(cur, 12))
+		if after != nil && aloneFull != nil {
+			detail += "\n" + DiffOutcomes(aloneFull, after)
+		}
+		viol := Violation{Property: c.Property, Class: HistoryClass, Signature: HistoryClass, Detail: detail}
+		path := filepath.Join(c.VerifDir, "replays", fmt.Sprintf("%s-%s-%d.json", c.Property, HistoryClass, v.t.Index))
+		os.MkdirAll(filepath.Dir(path), 0o755)
+		rf := ReplayFile{Property: c.Property, Engine: p.Engine, Class: HistoryClass, Signature: HistoryClass, Seed: Mix(c.Seed, p.Engine, v.t.Index), Index: v.t.Index,
+			Violation: &viol, Repo: repoInfo(), Prior: cur, BaseSeed: c.Seed, Minimised: true,
+			Extra: map[string]any{"bin_env": p.Env, "bin_kind": p.BinKind, "base_seed": c.Seed, "prior_runs_before_minimisation": len(prior)}}
+		if aloneFull != nil {
+			rf.Scenario = aloneFull.Scenario
+		}
+		b, _ := json.MarshalIndent(rf, "", " ")
+		os.WriteFile(path, append(b, '\n'), 0o644)
+		// confirm in a fresh process
+		cmd := exec.Command(p.Bin, "exec1", "--file", path)
+		cmd.Env = append(os.Environ(), p.Env...)
+		err = cmd.Run()
+		if ee, ok := err.(*exec.ExitError); !ok || ee.ExitCode() != 1 {
+			res.harness = append(res.harness, fmt.Sprintf("history test: replay file %s does not reproduce", path))
+			continue
+		}
+		reported++
+		res.found = append(res.found, FoundViolation{V: viol, Seed: rf.Seed, Index: v.t.Index, Engine: p.Engine, Bin: p.Bin, BinKind: p.BinKind, Env: p.Env, Replay: path})
+	}
+}
+
+func headU(v []uint64, n int) []uint64 {
+	if len(v) > n {
+		return v[:n]
+	}
+	return v
 }
 
 // replayWithPriors tries the violation after the runs its worker executed
@@ -474,13 +614,14 @@ func RunCheck(c *Check) int {
 			total.samples = append(total.samples, r.samples...)
 		}
 		total.detChecked += r.detChecked
+		total.histChecked += r.histChecked
 		rph := 0.0
 		if r.wall > 0 {
 			rph = float64(r.sum.Runs) / r.wall * 3600
 		}
 		phaseInfo = append(phaseInfo, map[string]any{"phase": p.Label, "engine": p.Engine, "runs": r.sum.Runs, "requested": p.Runs,
 			"wall_s": round1(r.wall), "runs_per_hour": int(rph), "stopped_by_time_cap": r.timedOut,
-			"distinct_nontrivial": len(r.fps), "determinism_pairs_compared": r.detChecked})
+			"distinct_nontrivial": len(r.fps), "determinism_pairs_compared": r.detChecked, "history_pairs_compared": r.histChecked})
 		fmt.Printf("phase %-22s runs=%d nontrivial-distinct=%d wall=%.1fs violations=%d harness=%d\n", p.Label, r.sum.Runs, len(r.fps), r.wall, len(r.found), len(r.harness))
 	}
 	total.found = append(total.found, c.ExtraViolations...)
@@ -616,6 +757,7 @@ func RunCheck(c *Check) int {
 		"probes":                    total.sum.Probes,
 		"phases":                    phaseInfo,
 		"determinism_pairs_compared": total.detChecked,
+		"history_pairs_compared":     total.histChecked,
 		"components":                c.Components,
 		"known_findings_exercised":  SortedKeys(knownHit),
 		"harness_doubts":            len(total.harness),
